@@ -12,8 +12,13 @@ def build():
              "use crate::anyhow::Result;\nuse crate::openssl::ssl::{self, AlpnError, SslAcceptor, SslMethod};\n"
              "use crate::vnet::{TcpListener, UnixListener};\nuse std::sync::Arc;\nuse crate::vnet as thread;")
     u.take(S, "ALPN_ERROR", "openssl_server")
+    u.raw("openssl_server", "broadcast use crate::anyhow::axiom_from_origin;")
     u.macro(S, "listen_and_accept")
-    u.verify(S, "start", "openssl_server", props=["C17", "C16"], fns={"start": FnSpec(ret="r", rewrites=[
+    u.verify(S, "start", "openssl_server", props=["C17", "C16"], fns={"start": FnSpec(ret="r", try_explicit=True, sig="""
+    ensures
+        // whatever a client does to its own connection, the server goes on accepting: start never ends on an error of one connection
+        r matches Err(e) ==> e.origin@ != 1, //@C17.a_connection_cannot_end_the_accept_loop
+""", rewrites=[
         ("T-ANYHOW", r"bail!\((?P<m>\"[^\"]*\")\)", r"return Err(crate::anyhow::msg(\g<m>))"),
         ("T-STR", r"listen_addr\.starts_with\((?P<p>\"[^\"]*\")\)", r"crate::vnet::str_starts_with(listen_addr, \g<p>)"),
         ("T-STR", r"&listen_addr\[(?P<n>\d+)\.\.\]", r"crate::vnet::str_from(listen_addr, \g<n>)"),
